@@ -19,6 +19,7 @@ BASIS = ['0', '1', 'a', 'b', 'c', 'd', '~a', '~d', 'a & b', 'a | b', 'a & ~b', '
          'a | b | c | d', 'a & b | c & d', '(a | b) & (c | d)', 'a & c | b & d', '(a | d) & (b | c)', PAR4, '~' + PAR4,
          'a & ~c | b & ~d', 'a & b & ~c | d', '~a & ~b & ~c & ~d', 'a & (b | c & d)', 'a | b & (c | d)', 'd & (a | ~b)',
          'not a or b and not c', '(a and d) or (not a and not d)', 'a & d | ~a & c & ~b', 'b & (a | d) & ~(a & d)']
+BASIS = [B.rn(t) for t in BASIS]
 __doc__ = __doc__ % len(BASIS)
 PSIZE = 4
 
